@@ -40,6 +40,8 @@ pub struct Prog {
     pub barriers: Vec<usize>,
     #[serde(default)]
     pub nonce: usize,
+    #[serde(default)]
+    pub nflags: usize,
     /// kind per task: "thread" | "future"
     #[serde(default)]
     pub kinds: Vec<String>,
